@@ -63,6 +63,9 @@ pub enum Edit {
     /// replace x by the x of another on-curve point, keep y (off-curve pair for uncompressed)
     XOther(u64),
     FlipSort,
+    /// fill the whole string with a periodic byte pattern (period 1..16), keeping the three flag bits:
+    /// structured junk (equal 8-byte words, equal bytes) behind whatever the flags announce
+    Periodic(Vec<u8>),
 }
 
 #[derive(Clone, Debug, Serialize, Deserialize, PartialEq, Eq, Hash)]
@@ -94,6 +97,12 @@ fn edit_strategy() -> BoxedStrategy<Edit> {
         3 => any::<u64>().prop_map(Edit::XNoRoot),
         2 => any::<u64>().prop_map(Edit::XOther),
         3 => Just(Edit::FlipSort),
+        2 => prop_oneof![
+            proptest::collection::vec(any::<u8>(), 1..=1),
+            proptest::collection::vec(any::<u8>(), 8..=8),
+            proptest::collection::vec(0u8..2, 8..=8),
+            proptest::collection::vec(any::<u8>(), 1..=16),
+        ].prop_map(Edit::Periodic),
     ]
     .boxed()
 }
@@ -244,6 +253,15 @@ where
             }
             Edit::FlipSort => {
                 bytes[0] ^= 0x20;
+            }
+            Edit::Periodic(pat) => {
+                if !pat.is_empty() {
+                    let flags = bytes[0] & 0xe0;
+                    for (k, b) in bytes.iter_mut().enumerate() {
+                        *b = pat[k % pat.len()];
+                    }
+                    bytes[0] = (bytes[0] & 0x1f) | flags;
+                }
             }
         }
     }
